@@ -1,6 +1,7 @@
 """Shared machinery for the properties decided with spec/Solver.tla (C13, C20, C01 stop rule, C09 start-up):
 history generation with TLC, replay + trace recording on the real object, trace validation with TLC."""
 import json
+import math
 import os
 import random
 
@@ -220,6 +221,10 @@ def validate_trace(tpath, label):
     else:
         raise vlib.HarnessError("trace validation failed (rc=%s):\n%s" % (r.rc, r.out[-3000:]))
     if res["accepted"]:
+        bad = rho_values(life)
+        if bad:
+            res.update(accepted=False, violated="RhoValue", progress=bad[0], rho_value=bad[1])
+    if res["accepted"]:
         # the same recording, operator level: every cycle / start-up / residual evaluation / rhs set-up is the program of CycleOps.tla
         o = validate_ops(opath, label)
         res["ops_tlc"] = o["tlc"]
@@ -228,6 +233,30 @@ def validate_trace(tpath, label):
         if not o["accepted"]:
             res.update(accepted=False, violated=o["violated"], progress=o["progress"], trace_path=opath, level="operators")
     return res
+
+
+def rho_values(life):
+    """Binding of the token <<"ratio", curNorm, initNorm>> of Solver.tla `ComputeStats` to numbers: the reduction factor logged at
+    SolveEnd must be (r_j / r_0)^(1/m) for the LAST norm r_j recorded in THIS solve and m in {j, j+1} (j cycles lie between r_0 and
+    r_j; after a budget stop the code divides by the number of cycles run, j+1) - a well-defined function of that solve (C20, C13).
+    Returns (line number, text) of the first SolveEnd that is not, else None."""
+    norms, n = [], 0
+    for n, line in enumerate(open(life), 1):
+        ev = json.loads(line)
+        e = ev.get("e")
+        if e in ("SolveBegin", "SolveEnter", "Reset", "Ctor"):
+            norms = []
+        elif e == "ResNorm":
+            norms.append(float(ev["cur"]["v"]))
+        elif e == "SolveEnd" and ev.get("nIter", 0) > 0 and len(norms) >= 2 and not ev["rho"].get("nan"):
+            rho, j = float(ev["rho"]["v"]), len(norms) - 1
+            if not (norms[0] > 0 and all(math.isfinite(x) for x in (rho, norms[0], norms[j]))):
+                continue      # degenerate norms are judged by StatsDefined / the c01 obligation
+            cands = [math.pow(norms[j] / norms[0], 1.0 / m) for m in (j, j + 1) if m >= 1]
+            if not any(abs(rho - c) <= 1e-10 * max(abs(c), 1e-300) for c in cands):
+                return n, ("SolveEnd reports the mean reduction factor %r, but the norms recorded in this solve (first %r, last %r after %d cycles, "
+                           "%d iterations reported) give %s" % (rho, norms[0], norms[j], j, ev["nIter"], " or ".join("%r" % c for c in cands)))
+    return None
 
 
 def describe_rejection(res):
